@@ -275,6 +275,16 @@ func VerifSameTree(a, b map[string][]byte) bool   { return verifSameTree(a, b) }
 // transaction files 42..41+k exist. Returns the position after each step
 // (index 0 = position 41).
 func VerifPrimaryChain(k int) (*Store, *DB, []ltx.Pos) {
+	w, chain := verifChain(k)
+	return w.store, w.db, chain
+}
+
+func verifChainWorld(k int) *verifWorld {
+	w, _ := verifChain(k)
+	return w
+}
+
+func verifChain(k int) (*verifWorld, []ltx.Pos) {
 	ctx := context.Background()
 	w := verifNewStore(true)
 	w.verifOpenDB(verifImage("img0", 1, false), 41)
@@ -292,7 +302,7 @@ func VerifPrimaryChain(k int) (*Store, *DB, []ltx.Pos) {
 		must(db.RemoveJournal(ctx))
 		chain = append(chain, db.Pos())
 	}
-	return w.store, db, chain
+	return w, chain
 }
 
 // verifImageBig returns n pages: page 1 and the listed pages have symbolic
